@@ -34,13 +34,13 @@ def index_programs(length=5, idx_lit=None):
     arg = (lambda k: Lit(INT, idx_lit)) if idx_lit is not None else globals()['arg']
     for el in (INT, BYTE, BOOL, STRING):
         for storage in ('local_lit', 'local_const_lit', 'vla', 'global', 'global_const', 'param', 'param_const', 'temp_lit'):
-            for form in ('read', 'assign', 'opassign', 'read_then_more'):
+            for form in ('read', 'assign', 'opassign', 'read_then_more', 'read_as_statement'):
                 const = storage in ('local_const_lit', 'global_const', 'param_const', 'temp_lit')
                 if form in ('assign', 'opassign') and const:
                     continue
                 if form == 'opassign' and el not in (INT, BYTE):
                     continue
-                if storage == 'temp_lit' and form != 'read':
+                if storage == 'temp_lit' and form not in ('read', 'read_as_statement'):
                     continue
                 t = Arr(el, const)
                 elems = [_val(el, k) for k in range(length)]
@@ -63,6 +63,8 @@ def index_programs(length=5, idx_lit=None):
                 body = [_mark('<')]
                 if form == 'read':
                     body += _show(target)
+                elif form == 'read_as_statement':
+                    body += [ExprStmt(target), _mark('s')]                # evaluated for its fault only
                 elif form == 'read_then_more':
                     body += [Decl('t', el, target)] + _show(Var('t', el)) + _show(Index(a if storage != 'temp_lit' else ArrLit([_val(el, 0)], el, True), Lit(INT, 0)))
                 elif form == 'assign':
@@ -117,7 +119,7 @@ def index_values(length, bits):
 def division_programs(div_lit=None):
     """v[0] = dividend, v[1] = divisor (or the literal div_lit, written into the source, under a run-time dividend)"""
     for op in ('/', '%'):
-        for form in ('expr', 'expr_byte', 'opassign_var', 'opassign_byte_var', 'opassign_elem', 'opassign_byte_elem',
+        for form in ('as_statement', 'as_statement_in_speculation', 'expr', 'expr_byte', 'opassign_var', 'opassign_byte_var', 'opassign_elem', 'opassign_byte_elem',
                      'opassign_global', 'in_condition', 'in_index', 'in_arg'):
             pre, gl = [], []
             main_params = [('v', Arr(INT, True), False)]
@@ -125,7 +127,11 @@ def division_programs(div_lit=None):
             if div_lit is not None:
                 b = Lit(INT, div_lit, keep=True)
             body = [_mark('<')]
-            if form == 'expr':
+            if form == 'as_statement':
+                body += [ExprStmt(Bin(op, a, b)), _mark('s')]             # evaluated for its fault only
+            elif form == 'as_statement_in_speculation':
+                body += [ExprStmt(Spec(Bin(op, a, b), Lit(INT, 0))), _mark('s')]
+            elif form == 'expr':
                 body += _show(Bin(op, a, b))
             elif form == 'expr_byte':
                 body += _show(Bin(op, Cast(a, BYTE), Cast(b, BYTE)))
@@ -189,6 +195,24 @@ def vla_programs(len_lit=None):
             n = Lit(INT, len_lit, keep=True)
         body = [_mark('<'), VLA('a', el, n), _mark('+'), W(Len(Var('a', Arr(el, False)))), _mark('>'), _mark('!')]
         yield f'vla/{el}', Program([], [Func('@is_you', [('v', Arr(INT, True), False)], EMPTY, body)])
+
+
+def packed_twin_programs():
+    """two constant bool tables whose bit-packed bytes are identical although their lengths differ (and a byte table with
+    the same bytes): each keeps its own length in its index guard and when passed on.  v[0] is the index."""
+    pairs = [([True, False, True, False], [True, False, True]), ([True, False, True], [True, False, True, False]), ([True] * 7, [True] * 7 + [False]),
+             ([True] * 7 + [False], [True] * 7), ([False], [False, False]), ([True, True, False, False, False, False, False, False, True], [True, True, False, False, False, False, False, False, True, False, False])]
+    cnt = Func('cnt', [('p', Arr(BOOL, True), False)], INT, [Ret(Len(Var('p', Arr(BOOL, True))))])
+    for k, (x, y) in enumerate(pairs):
+        for where in ('local', 'global'):
+            dx = Decl('tx', Arr(BOOL, True), ArrLit([Lit(BOOL, v, keep=True) for v in x], BOOL, True))
+            dy = Decl('ty', Arr(BOOL, True), ArrLit([Lit(BOOL, v, keep=True) for v in y], BOOL, True))
+            tx, ty = Var('tx', Arr(BOOL, True)), Var('ty', Arr(BOOL, True))
+            body = [_mark('<'), W(Len(tx)), W(Len(ty)), W(Call(cnt, [tx])), W(Call(cnt, [ty])), _mark(' '), W(Index(ty, arg(0))), _mark('+'), W(Index(tx, arg(0))), _mark('>'), _mark('!')]
+            if where == 'local':
+                yield f'packed-twins/{k}/local', Program([], [Func('@is_you', [('v', Arr(INT, True), False)], EMPTY, [dx, dy] + body), cnt])
+            else:
+                yield f'packed-twins/{k}/global', Program([dx, dy], [Func('@is_you', [('v', Arr(INT, True), False)], EMPTY, body), cnt])
 
 
 def vla_values(bits):
